@@ -120,7 +120,9 @@ def firstViolation (r : Req) (m : List (String × String)) : Option String :=
       let sameFile (p : String) : Bool := match bytesOfHex p with
         | some b => b.head? == some 47 && RpmVerif.Path.nameComps b == RpmVerif.Path.nameComps f.dest
         | none => false
-      match entries.find? (fun e => match (e.splitOn ",").head? with | some p => paths.contains p || sameFile p | none => false) with
+      -- (an exact spelling is preferred: `/x/f` and `//x/f` are two files with the same components)
+      let pathOf (e : String) : String := ((e.splitOn ",").head?).getD ""
+      match (entries.find? (fun e => paths.contains (pathOf e))).orElse (fun _ => entries.find? (fun e => sameFile (pathOf e))) with
       | none => some "file-missing"
       | some e =>
         match e.splitOn "," with
